@@ -518,6 +518,9 @@ func (e *Exec) valuesEqual(a, b Value) *Term {
 		return Eq(s.Ptr, ConstI(0, Ref))
 	}
 	x, y := e.scalarOf(a), e.scalarOf(b)
+	if x.Sort != y.Sort {
+		e.errorf("comparison of a %s with a %s value: convert one side explicitly", x.Sort, y.Sort)
+	}
 	return Eq(x, y)
 }
 
